@@ -14,6 +14,7 @@ META = {
     'technique': 'static analysis: canonical linear normal forms and comparison normal forms (e >= 0) of guards; '
                  'def-use closure for configuration independence of forced breaks',
 }
+META['text'] += ' The forced break the printers add on their own for very long sequences is a threshold on the number of elements only.'
 
 
 def run(repo, rep):
